@@ -393,6 +393,41 @@ def r20_6(run, model):
     run.floor("prefix/suffix tests with a computed argument", n, 4)
 
 
+def r20_8(run, model):
+    run.rule("R20.8", "the entry file (the editor buffer / the file named on the command line) is loaded once: load_package excludes it from "
+                      "the directory listing by comparing files, not path spellings (`main.gom`, `./main.gom`, a symlinked or `..` path name "
+                      "the same file); a raw `entry == path` also loads the copy on disk, whose HIR ids overwrite the buffer's")
+    PK = "crates/compiler/src/pipeline/packages.rs"
+    f = model.fn("load_package", PK)
+    n = 0
+    for c in S.walk(f.body):
+        if c["k"] == "MethodCall" and c["method"] in ("is_some_and", "map_or", "is_some") and "entry_path" in S.idents(c["recv"]):
+            n += 1
+            t = S.norm_ws(run.facts.text(PK, c["sp"]))
+            raw = re.search(r"\|(\w+)\|\1==path|\|(\w+)\|path==\2", t) is not None
+            run.ob("R20.8", "load_package|entry file excluded by file identity", not raw, site(PK, c["sp"]), f"test: {t[:80]}",
+                   witness="compiler run main.gom (bare relative name) loads main.gom twice: `Trait Show implementation for TInt32 is already defined`; a query with a `..` path answers for the file on disk instead of the unsaved buffer")
+    if n == 0:
+        raise AnalysisIncomplete("load_package: test that skips the entry file not found")
+
+
+def r20_9(run, model):
+    run.rule("R20.9", "hover on a binder answers with the binder's type: in hover_type the pattern lookup for the token is consulted before the "
+                      "expression lookup (the expression lookup climbs to enclosing expressions, so it would answer for the surrounding "
+                      "match / closure / loop)")
+    f = model.fn("hover_type", QUERY)
+    pos = {}
+    for c in S.walk(f.body):
+        if c["k"] == "Call" and S.callee_name(c) in ("find_mapped_pat_id_from_token", "find_mapped_expr_id_from_token"):
+            pos.setdefault(S.callee_name(c), (c["sp"][0], c["sp"][1]))
+    if len(pos) < 2:
+        raise AnalysisIncomplete("hover_type: pattern / expression lookups not found")
+    ok = pos["find_mapped_pat_id_from_token"] < pos["find_mapped_expr_id_from_token"]
+    run.ob("R20.9", "hover_type|pattern lookup before expression lookup", ok, site(QUERY, f.node["sp"]),
+           f"pattern lookup at line {pos['find_mapped_pat_id_from_token'][0]}, expression lookup at line {pos['find_mapped_expr_id_from_token'][0]}",
+           witness="hover on r in `Circle(r) => ..` answers string (the type of the match) instead of int32")
+
+
 def r20_4(run, model):
     run.rule("R20.4", "invariants the site ledger rests on are checked, not only stated: (a) lower_path yields Some only for a non-empty "
                       "segment list (the `.expect(\"paths must contain at least one segment\")` sites rely on it), and every other producer "
@@ -443,6 +478,8 @@ def run(run, model):
     g = Graph(mir)
     run.try_rule(r20_4, model)
     run.try_rule(r20_6, model)
+    run.try_rule(r20_8, model)
+    run.try_rule(r20_9, model)
     from rules import c07
     run.rule("R20.7", "the occurs check looks into every component of every type former (shared with C07 R07.2, restricted to typer::unify): a "
                       "missed component lets a cyclic type through and the next query overflows the stack")
